@@ -408,4 +408,14 @@ example : numDoublings (α := Rat) (1/4) 3 5 3 64 = some 4 := by decide +kernel
 example : (driftOf 1 1 (maternBottom 1 1 (3 : Rat))).get 1 0 = -9 ∧ (driftOf 1 1 (maternBottom 1 1 (3 : Rat))).get 1 1 = -6 := by
   decide +kernel
 
+/-- hypotheses of `gram_doubling` / `doubling_iter` are satisfiable: `E = 2`, `E⁻¹ = 1/2`; the flow of `A = 0`, `B = 1` -/
+example : ((2 : ℚ) • (1 : Matrix (Fin 1) (Fin 1) ℚ)) * ((1 / 2 : ℚ) • (1 : Matrix (Fin 1) (Fin 1) ℚ)) = 1 := by
+  rw [Matrix.smul_mul, Matrix.mul_smul, smul_smul]; norm_num
+example : (∀ t u : ℕ, (fun _ : ℕ => (1 : Matrix (Fin 2) (Fin 2) ℚ)) (t + u) = (fun _ => 1) u * (fun _ => 1) t) ∧
+    (∀ t u : ℕ, (fun t : ℕ => (t : ℚ) • (1 : Matrix (Fin 2) (Fin 2) ℚ)) (t + u)
+      = (fun t : ℕ => (t : ℚ) • (1 : Matrix (Fin 2) (Fin 2) ℚ)) u + 1 * ((t : ℚ) • (1 : Matrix (Fin 2) (Fin 2) ℚ)) * (1 : Matrix (Fin 2) (Fin 2) ℚ)ᵀ) := by
+  constructor
+  · intro t u; simp
+  · intro t u; simp [add_smul, add_comm]
+
 end Pdq.C09
